@@ -239,6 +239,10 @@ def call_builtin(ex, st: State, name: str, args, kwargs, node):
             r = st.alloc('list')
             st.set_list_seq(r, seq)
             return [(st, r)]
+        if name == 'list':
+            r = st.alloc('list')
+            st.set_list_seq(r, fresh(SeqVal, 'listed'))   # unknown iterable: a list with arbitrary elements
+            return [(st, r)]
         raise Unsupported(f'{name}() of symbolic iterable')
     if name == 'dict':
         if not args and not kwargs:
@@ -410,7 +414,11 @@ def call_method(ex, st: State, recv: V, name: str, args, kwargs, node):
             if m.container_cls(ex, st, o) in ('list', 'tuple', 'deque'):
                 st.set_list_seq(recv, z3.Concat(seq, st.list_seq(o)))
                 return [(st, NONE)]
-            raise Unsupported('extend with symbolic iterable')
+            sq, _n, _el = m.iter_seq(ex, st, o)
+            if sq is None:
+                sq = fresh(SeqVal, 'extended')     # unknown iterable: arbitrary elements are appended
+            st.set_list_seq(recv, z3.Concat(seq, sq))
+            return [(st, NONE)]
         if name == 'clear':
             st.set_list_seq(recv, z3.Empty(SeqVal))
             return [(st, NONE)]
